@@ -252,7 +252,67 @@ let run_op (line : string) =
    | _ -> failwith ("unknown op " ^ op));
   print_state ()
 
+(* ---------- unit mode: the slot map alone (same op language and output as `h_units slotmap`) ---------- *)
+let run_slotmap file =
+  let ic = open_in file in
+  let sm : int smap ref = ref sm_empty and nk = ref N0 and issued : (int * int) list ref = ref [] in
+  let mk i g : key = (ni i, ni g) in
+  let sopt = function None -> "None" | Some v -> Printf.sprintf "Some(%d)" v in
+  let kstr = function None -> "none" | Some (k : key) -> skey k in
+  let nth_issued j = let l = List.rev !issued in List.nth l (j mod List.length l) in
+  let remove i g = if g land 1 = 0 then None else
+      (match sm_remove (mk i g) !sm with Some (v, m') -> sm := m'; Some v | None -> None) in
+  let get i g = if g land 1 = 0 then None else sm_get (mk i g) !sm in
+  let set_generation i g =
+    (match sget (!sm).slots (ni i) with
+     | Some s when s.val0 <> None && g land 1 = 1 ->
+         sm := { !sm with slots = supd (!sm).slots (ni i) { s with gen = ni g } }; true
+     | _ -> false) in
+  (try while true do
+    let line = String.trim (input_line ic) in
+    if line = "" || line.[0] = '#' then () else
+    if line = "reset" then (sm := sm_empty; nk := N0; issued := []; print_string "RESET\n") else begin
+      toks := List.filter (fun s -> s <> "") (String.split_on_char ' ' line);
+      let op = next () in
+      (match op with
+       | "i" -> let v = next_int () in
+           (match insert_with (fun _ -> v) !sm with
+            | Some (k, m') -> sm := m'; issued := (inn (fst k), inn (snd k)) :: !issued; Printf.printf "i %s\n" (skey k)
+            | None -> print_string "i none\n")
+       | "r" -> let i = next_int () in let g = next_int () in Printf.printf "r %s\n" (sopt (remove i g))
+       | "g" -> let i = next_int () in let g = next_int () in Printf.printf "g %s\n" (sopt (get i g))
+       | "ri" | "gi" -> let j = next_int () in
+           if !issued = [] then Printf.printf "%s skip\n" op else
+           let (i, g) = nth_issued j in
+           let r = if op = "ri" then remove i g else get i g in
+           Printf.printf "%s %dv%d %s\n" op i g (sopt r)
+       | "x" -> let i = next_int () in
+           (match get_by_index !sm (ni i) with
+            | Some (k, v) -> Printf.printf "x Some((%d, %d, %d))\n" (inn (fst k)) (inn (snd k)) v
+            | None -> print_string "x None\n")
+       | "s" -> let i = next_int () in let g = next_int () in Printf.printf "s %b\n" (set_generation i g)
+       | "si" -> let j = next_int () in let d = next_int () in
+           if !issued = [] then print_string "si skip\n" else
+           let (i, _) = nth_issued j in
+           let g = 4294967295 - 2 * d in
+           let cur = (match sget (!sm).slots (ni i) with Some s -> inn s.gen | None -> 0) in
+           let ok = g > cur && set_generation i g in
+           if ok then issued := (i, g) :: !issued;
+           Printf.printf "si %d %d %b\n" i g ok
+       | "n" -> nk := next_key_iter !sm; Printf.printf "n %d\n" (inn !nk)
+       | "k" -> (match nki_next !nk !sm with
+                 | None -> print_string "k panic\n"
+                 | Some (ko, i') -> nk := i'; Printf.printf "k %s %d\n" (kstr ko) (inn i'))
+       | _ -> failwith ("bad slotmap op " ^ op));
+      let slots = List.map (fun s -> match s.val0 with
+          | None -> Printf.sprintf "%d>%d" (inn s.gen) (if s.gen = N0 then 0 else inn s.link)
+          | Some _ -> string_of_int (inn s.gen)) (!sm).slots in
+      Printf.printf "= [%s] nf=%d len=%d\n" (String.concat "," slots) (inn (!sm).next_free) (inn (!sm).sm_len)
+    end
+  done with End_of_file -> ())
+
 let () =
+  if Array.length Sys.argv > 2 && Sys.argv.(1) = "slotmap" then run_slotmap Sys.argv.(2) else
   let want_snap = Array.length Sys.argv > 2 && Sys.argv.(2) = "snap" in
   let ic = open_in Sys.argv.(1) in
   let n = ref 0 in
